@@ -174,13 +174,20 @@ fn c10_add_constant_pool3() {
 }
 
 fn trace_contract(_gc: &mut GC, _o: Object) {}
+static mut UNTRACE_CALLS: usize = 0;
+fn untrace_rec(_gc: &mut GC, _o: Object) { unsafe { UNTRACE_CALLS += 1; } }
 /// O10.1f [bounded: pool of one float constant, ALL pairs of f64 bit patterns] a float literal is stored in (or
-/// merged into) a slot whose value is IEEE-equal to it - two different float literals never share a slot
+/// merged into) a slot whose value is IEEE-equal to it - two different float literals never share a slot.
+/// Frame (C04, added after seeded change C04-2): add_constant does NOT take the constant out of the collector's
+/// ownership - the pool is handed over as a whole by compile_program on success, so a compilation that fails
+/// later still releases what it built
 #[kani::proof]
 #[kani::unwind(5)]
 #[kani::stub(Object::as_str_unchecked, as_str_contract)]
 #[kani::stub(GC::trace, trace_contract)]
+#[kani::stub(GC::untrace, untrace_rec)]
 fn c10_add_constant_float() {
+    unsafe { UNTRACE_CALLS = 0; }
     let mut c = compiler_with(vec![]);
     let (x, y): (f64, f64) = (kani::any(), kani::any());
     kani::assume(!x.is_nan() && !y.is_nan());
@@ -195,6 +202,7 @@ fn c10_add_constant_float() {
     assert!(c.constants[idx].tag() == crate::object::Type::Float);
     assert!(c.constants[idx].as_f64() == y);
     assert!(c.constants[0].as_f64().to_bits() == x.to_bits());
+    assert!(unsafe { UNTRACE_CALLS } == 0);
 }
 
 // ------------------------------------------------------------------------------------------
